@@ -840,3 +840,30 @@ Proof.
   - intros res Hres. assert (Hin : In res (perms F)) by (apply perms_iff; apply Hres).
     apply sets_check_correct in Hres. now rewrite (find_none _ _ E res Hin) in Hres.
 Qed.
+
+(* reorder_sets returns families of at most two sets unchanged: any such arrangement is fine, so the contract
+   only concerns the PQ-tree on families of at least three sets *)
+Lemma small_family_ok F : length F <= 2 -> SetsOK F F.
+Proof.
+  intros Hlen. split; [reflexivity|]. intros v.
+  destruct F as [|a [|b [|c r]]]; [| | |simpl in Hlen; lia].
+  - exists [], [], []. repeat split; constructor.
+  - destruct (in_dec Nat.eq_dec v a) as [Ha|Ha].
+    + exists [], [a], []. repeat split; repeat constructor; auto.
+    + exists [a], [], []. repeat split; repeat constructor; auto.
+  - destruct (in_dec Nat.eq_dec v a) as [Ha|Ha]; destruct (in_dec Nat.eq_dec v b) as [Hb|Hb].
+    + exists [], [a; b], []. repeat split; repeat constructor; auto.
+    + exists [], [a], [b]. repeat split; repeat constructor; auto.
+    + exists [a], [b], []. repeat split; repeat constructor; auto.
+    + exists [a; b], [], []. repeat split; repeat constructor; auto.
+Qed.
+
+Theorem reorder_sets_model_contract pq_tree :
+  (forall F, 3 <= length F -> NoDup F -> Forall (StronglySorted lt) F ->
+     match pq_tree F with Some res => SetsOK F res | None => forall res, ~ SetsOK F res end) ->
+  reorder_contract (reorder_sets_model pq_tree).
+Proof.
+  intros H F Hnd Hs. unfold reorder_sets_model. destruct (Nat.leb_spec (length F) 2) as [Hl|Hl].
+  - now apply small_family_ok.
+  - apply H; auto.
+Qed.
